@@ -136,7 +136,10 @@ def there_follows(ctx):
         g = cmps[-1]
         g1 = g.lstrip("!")
         direct = g1 in ("eq(%s, %s)" % (SK, PK), "eq(%s, %s)" % (PK, SK))
-        opt = re.match(r"^eq\((?:Option::Some\{0: (?:ref\()?%s\)?\}, within\(%s, <0\.\.len\(a1\.pattern\) skip a1\.idx>\)|within\(%s, <0\.\.len\(a1\.pattern\) skip a1\.idx>\), Option::Some\{0: (?:ref\()?%s\)?\})\)$" % (re.escape(SK), re.escape(PK), re.escape(PK), re.escape(SK)), g1) is not None
+        # the pattern's characters pulled from a second, checked iterator: over the pattern from idx on, or over the
+        # checked sub-slice pattern[idx..len] / pattern[idx..]
+        WIN = r"<(?:0\.\.len\(a1\.pattern\) skip a1\.idx|a1\.pattern\[a1\.idx\.\.(?:a1\.len|len\(a1\.pattern\))?\])>"
+        opt = re.match(r"^eq\((?:Option::Some\{0: (?:ref\()?%s\)?\}, within\(%s, %s\)|within\(%s, %s\), Option::Some\{0: (?:ref\()?%s\)?\})\)$" % (re.escape(SK), re.escape(PK), WIN, re.escape(PK), WIN, re.escape(SK)), g1) is not None
         _rec(d, "compares-same-index", direct or opt, "turn k must compare the k-th character of s with pattern[idx+k]; found %s" % g[:200], loc)
         if opt or INR in gs:
             checked_in_loop = True
@@ -359,6 +362,13 @@ def parse_bracket(ctx):
             if e[0] == "store":
                 st[strip_ver(show(e[1]))] = _sh(strip_ver(render(e[2])))
         rt = _top_pair(strip_ver(r)[len("Result::Ok{0: ("):-2]) if strip_ver(r).startswith("Result::Ok{0: (") and strip_ver(r) != "Result::Ok{0: ()}" else None
+        if rt is None:
+            # ... or as a two-field struct {min, max} (whatever it is called)
+            ms = re.match(r"^Result::Ok\{0: (?:\w+::)+\w+\{(\w+): (.*)\}\}$", strip_ver(r))
+            if ms:
+                inner = _top_pair(strip_ver(r)[strip_ver(r).index("{", len("Result::Ok{0: ")) + 1:-2])
+                if inner and re.match(r"^\w*min\w*: ", inner[0]) and re.match(r"^\w*max\w*: ", inner[1]):
+                    rt = (inner[0].split(": ", 1)[1], inner[1].split(": ", 1)[1])
         if r == "Result::Ok{0: ()}" or rt is not None:
             closes = [g for g in gs0 if re.match(r"^eq\('\}', a1\.pattern\[.*\]\)$", g)]
             _rec(d, "ok-consumed-brace", bool(closes), "bracket() succeeds without having seen the closing '}'", loc)
